@@ -215,3 +215,20 @@ check("C14", "model_checking",
       "part samples schedules (race detector), it is not exhaustive; two race findings fixed, one known (shared StateDB object caches)",
       "TLA+ refinement model + TLC-exported scenarios on the real TxPool + TLC trace validation; race detector for the concurrency clause",
       "DESIGN.md#c14")
+
+HOOK_COMMITS += ["5c4dfac8"]
+
+check("C07", "model_checking",
+      "Cert.tla transcribes the registry (loadValidNodes / determineValidators), the committee size and threshold rules (<= 8 table, "
+      "percent rule, VotesCountSubtrahend), Compress, the signer recovery of ValidateBlockCert (nil and shared signer cache), AddVote "
+      "and countVotes, with the invariants Sound (Accept => Quorum), Complete (Quorum and no foreign vote => Accept) and Counter (every "
+      "certificate the counter emits is accepted and is a quorum; it emits exactly when one exists); MC_CertCount covers registry sizes "
+      "0..150 by counting. TLC exports validator-set shapes x vote lists; each is realised with real keys in a real IdentityStateDB / "
+      "ValidatorsCache, real signed votes (stale round/step/hash/parent, flag variants, duplicates, malleated and unrecoverable "
+      "signatures), the real Compress + wire codec, ValidateBlockCert three ways, pengings.Votes + the real countVotes; TLC validates "
+      "every recorded outcome against Trace_Cert (Params, Committee, Eligibility, Required, Sound, Complete, CounterSound, Deterministic).",
+      "quick: 48k + 16k states, ~18k trace lines; thorough: 433k + 34k states, ~153k lines; the seeded committee permutation is an "
+      "input (constrained, not modelled); float rounding ties admit both roundings; at most one deviating vote per exported case; "
+      "engine call sites computing the necessary vote count are replicated in the driver; MaxKnownVotes eviction and gossip are outside",
+      "TLA+ transcription of the certificate rules + TLC-exported cases on real validators cache / votes / certificates + TLC trace validation",
+      "DESIGN.md#c07")
